@@ -214,7 +214,7 @@ func cmdRun(args []string) int {
 			}
 			nv := 0
 			for _, v := range r.Violations {
-				if v.Known != "" || nv >= 3 {
+				if v.Known != "" || nv >= 8 {
 					continue
 				}
 				nv++
@@ -287,6 +287,9 @@ func cmdRun(args []string) int {
 				nViol++
 				violLines = append(violLines, fmt.Sprintf("VIOLATION property=%s replay=%s harness=%s kind=%s label=%q pos=%s values=%s", prop, v.Replay, r.Name, v.Kind, v.Label, v.Pos, compact(v.Pretty)))
 				exit = 1
+			} else if v.Replay == "" && v.ReplayOut == "" {
+				// beyond the per-harness replay limit: reported by the engine, not replayed
+				fmt.Printf("  further counterexample (not replayed, limit reached): harness=%s label=%q pos=%s\n", r.Name, v.Label, v.Pos)
 			} else {
 				fmt.Printf("  counterexample did NOT reproduce natively: harness=%s label=%q pos=%s values=%s native=%s\n", r.Name, v.Label, v.Pos, compact(v.Pretty), v.ReplayOut)
 				if r.Status == "violation" {
